@@ -20,6 +20,20 @@ type wcase struct {
 	Branch []string `json:"branch,omitempty"`
 	Ext    []string `json:"ext,omitempty"`
 	HasExt bool     `json:"has_ext,omitempty"`
+	// Poison > 0: before the judged call, make the same call with a writer that fails at write
+	// index Poison-1 and ignore its result (state left behind by a failed call)
+	Poison int `json:"poison,omitempty"`
+}
+
+type failingWriter struct{ n, failAt int }
+
+func (w *failingWriter) Write(p []byte) (int, error) {
+	i := w.n
+	w.n++
+	if i >= w.failAt {
+		return 0, fmt.Errorf("injected write failure")
+	}
+	return len(p), nil
 }
 
 type wres struct {
@@ -46,6 +60,12 @@ func run(c *wcase) (res wres) {
 	}
 	if c.HasExt {
 		opts = append(opts, gtree.WithFileExtensions(c.Ext))
+	}
+	if c.Poison > 0 {
+		func() {
+			defer func() { recover() }()
+			_ = gtree.Output(&failingWriter{failAt: c.Poison - 1}, bytes.NewReader(c.Doc), opts...)
+		}()
 	}
 	var buf bytes.Buffer
 	err := gtree.Output(&buf, bytes.NewReader(c.Doc), opts...)
